@@ -414,19 +414,19 @@ import (
 //@ func (*bufferManager).recycleBuffers
 //@   nilable
 //@   requires b != nil
-//@   requires[C09,C02] len(b.mem) < 4294967296 && (slice != nil && slice.isFromShm ==> slice.bufferHeader != nil && len(slice.bufferHeader) >= 20)
+//@   requires[C09] len(b.mem) < 4294967296 && (slice != nil && slice.isFromShm ==> slice.bufferHeader != nil && len(slice.bufferHeader) >= 20)
 //@   ghost var owed bool = true
 //@   ghost var nxt int = 0 - 1
-//@   at call? (bufferHeader).nextBufferOffset#0 ghost[C09,C02] nxt := ite(owed, r0, 0 - 1)
-//@   at call? (*bufferManager).recycleBuffer#0 check[C09,C02] owed && a1 == slice
-//@   at call? (*bufferManager).recycleBuffer#0 ghost[C09,C02] owed := false
-//@   at call? (*bufferManager).recycleBuffer#1 check[C09,C02] owed && a1 == slice && nxt == nextSliceOffset && nxt >= 0
-//@   at call? (*bufferManager).recycleBuffer#1 ghost[C09,C02] owed := false
-//@   at call? (*bufferManager).readBufferSlice#0 check[C09,C02] !owed && a1 == nxt
-//@   at call? (*bufferManager).readBufferSlice#0 ghost[C09,C02] owed := r1 == nil
-//@   at call? (*bufferManager).readBufferSlice#0 ghost[C09,C02] nxt := 0 - 1
-//@   exit[C09,C02] old(slice != nil && slice.isFromShm) ==> !owed
-//@   loop 0 invariant[C09,C02] owed && slice != nil && nxt == 0 - 1 && slice.bufferHeader != nil && len(slice.bufferHeader) >= 20
+//@   at call? (bufferHeader).nextBufferOffset#0 ghost[C09] nxt := ite(owed, r0, 0 - 1)
+//@   at call? (*bufferManager).recycleBuffer#0 check[C09] owed && a1 == slice
+//@   at call? (*bufferManager).recycleBuffer#0 ghost[C09] owed := false
+//@   at call? (*bufferManager).recycleBuffer#1 check[C09] owed && a1 == slice && nxt == nextSliceOffset && nxt >= 0
+//@   at call? (*bufferManager).recycleBuffer#1 ghost[C09] owed := false
+//@   at call? (*bufferManager).readBufferSlice#0 check[C09] !owed && a1 == nxt
+//@   at call? (*bufferManager).readBufferSlice#0 ghost[C09] owed := r1 == nil
+//@   at call? (*bufferManager).readBufferSlice#0 ghost[C09] nxt := 0 - 1
+//@   exit[C09] old(slice != nil && slice.isFromShm) ==> !owed
+//@   loop 0 invariant[C09] owed && slice != nil && nxt == 0 - 1 && slice.bufferHeader != nil && len(slice.bufferHeader) >= 20
 //@   modifies heap
 
 // --- handshake phase (blocking reads on the raw connection) ---
@@ -1120,6 +1120,7 @@ func lemmaCreateThenMapQueue(data []byte, cap uint32) {
 //@   loop 0 invariant[C01,C02,C01@mem,C02@mem] mem32(b.bufferRegion, slotOf(b, buffer) + 4) == 0 && mem32(b.bufferRegion, slotOf(b, buffer) + 8) == 0 && mem8(b.bufferRegion, slotOf(b, buffer) + 16) == 0
 //@   loop 0 invariant[C01,C02,C01@mem,C02@mem] forall x in [0, len(b.bufferRegion)): (x < old(slotOf(b, buffer)) + 4 || x >= old(slotOf(b, buffer)) + 20) ==> mem8(b.bufferRegion, x) == old(mem8(b.bufferRegion, x))
 //@   loop 0 modifies[C01,C02,C01@mem,C02@mem] *b.tail
+//@   modifies buffer.writeIndex, buffer.readIndex, buffer.nextSlice, all(M), b.chain, b.pos, b.held, b.n
 
 // ---------------------------------------------------------------------------
 // C10: stream close is final, propagates, reported at most once (stream.go)
@@ -1239,7 +1240,7 @@ func lemmaCreateThenMapQueue(data []byte, cap uint32) {
 //@   at call (*bufferList).push#0 hint[C01,C02] b.lists[i].bufferRegionOffsetInShm <= slice.offsetInShm && slice.offsetInShm < listEnd(b.lists[i]) && b.lists[slice.gowner].bufferRegionOffsetInShm <= slice.offsetInShm && slice.offsetInShm < listEnd(b.lists[slice.gowner])
 //@   at call (*bufferList).push#0 hint[C01,C02] i == slice.gowner
 //@   loop 0 modifies[C01,C02] nothing
-//@   modifies slice.isFromShm, slice.offsetInShm, slice.data, slice.bufferHeader, slice.cap, slice.writeIndex, slice.readIndex, slice.start, slice.nextSlice, all(M)
+//@   modifies slice.isFromShm, slice.offsetInShm, slice.data, slice.bufferHeader, slice.cap, slice.writeIndex, slice.readIndex, slice.start, slice.nextSlice, all(M), all(bufferList.chain), all(bufferList.pos), all(bufferList.held), all(bufferList.n)
 
 // readNextSlice: drops the exhausted front slice. C08: if a zero-copy result may still point into it
 // (currentPinned) it is parked in pinnedList and NOT recycled; otherwise it is recycled right away.
